@@ -192,3 +192,16 @@ PROPS["C13"] = {
                      "bounds": "adds Aes128Sha256RsaOaep, Aes256Sha256RsaPss"},
     },
 }
+
+PROPS["C16"] = {
+    "module": "c16_password",
+    "level": MC,
+    "technique": "Kani/CBMC symbolic execution of legacy_password_decrypt with RSA decryption replaced by an arbitrary-plaintext model (all plaintext bytes, the plaintext size and the nonce symbolic); counterexamples replayed natively with real RSA",
+    "kernels": ["opcua::crypto::user_identity::legacy_password_decrypt", "read_u32"],
+    "explanation": "PrivateKey::private_decrypt is modelled as returning ANY plaintext of any size within its contract (a peer holds the public key and can encrypt a plaintext of its choice, so this is exactly the attacker's power). "
+                   "For plaintext buffers of 4..12 bytes and nonces of 0..8 bytes, all symbolic: no panic; a password is returned only if the plaintext was framed len|password|nonce with the declared length "
+                   "matching and the trailing bytes equal to the caller's nonce (nonce binding).",
+    "outside": "RSA itself, padding modes and key sizes (OpenSSL FFI); PrivateKey::private_decrypt's own block loop (behind the stub); legacy_password_encrypt / the round trip (needs real RSA: exercised only in the native replay); passwords longer than 8 bytes",
+    "assumptions": ["PrivateKey::private_decrypt is replaced by c16_password::model_private_decrypt (arbitrary plaintext, size <= buffer)", "alloc::fmt::format returns an empty String", UTF8_STUB],
+    "tiers": tiers("c16", quick_timeout=900, qbounds="plaintext buffer 4, 6, 8 bytes with nonce 0, 4, 2 bytes; unwind 18", tbounds="adds plaintext 12 bytes with nonce 8"),
+}
